@@ -265,6 +265,13 @@ fn exec_read(
         return -EIO;
     }
 
+    // A zero-length read transfers nothing and may legally carry any
+    // pointer, including NULL (read(2) / io_uring accept (NULL, 0)); a Rust
+    // slice must not be formed from it.
+    if len == 0 {
+        return 0;
+    }
+
     // SAFETY: caller invariant — buffer remains valid for the in-flight
     // lifetime of the op.
     let buf = unsafe { std::slice::from_raw_parts_mut(ptr, len as usize) };
@@ -323,6 +330,11 @@ fn exec_write(
     let additional = write_end.saturating_sub(current_len);
     if additional > 0 && fs.check_space(additional).is_err() {
         return -ENOSPC;
+    }
+
+    // Zero-length write: nothing to transfer, the pointer may be NULL.
+    if len == 0 {
+        return 0;
     }
 
     // SAFETY: same as above.
